@@ -3,6 +3,7 @@ package gremfam
 // Helpers shared by the guided-remediation checks (C11, C12; reusable by C16).
 
 import (
+	"sync/atomic"
 	"context"
 	"encoding/json"
 	"fmt"
@@ -43,6 +44,20 @@ const watchdogLimit = 60 * time.Second
 // guarded runs f in its own goroutine; done is false when the watchdog expired. A panic in
 // f is re-raised in the caller (so that ev.Safe reports it with the original stack text).
 func guarded(f func()) (done bool) {
+	done, _ = guardedProgress(f, nil)
+	return done
+}
+
+// hangSeen is set once a computation was found blocked: later waits in this process (rapid
+// shrinking the failing case) use short limits.
+var hangSeen atomic.Bool
+
+// guardedProgress is guarded for computations whose progress shows in a counter (the number of
+// resolve-client calls): blocked is true when f has not returned and the counter has not
+// moved for two minutes, five minutes after the start (a computation that waits for something
+// that never comes: no time limit decides this on a merely busy machine, whose computations
+// keep making calls).
+func guardedProgress(f func(), progress func() int64) (done bool, blocked bool) {
 	type pan struct {
 		v     any
 		stack string
@@ -58,14 +73,42 @@ func guarded(f func()) (done bool) {
 		}()
 		f()
 	}()
-	select {
-	case p := <-ch:
+	finish := func(p *pan) (bool, bool) {
 		if p != nil {
 			panic(fmt.Sprintf("%v\n[goroutine of the code under test]\n%s", p.v, p.stack))
 		}
-		return true
+		return true, false
+	}
+	select {
+	case p := <-ch:
+		return finish(p)
 	case <-time.After(watchdogLimit):
-		return false
+	}
+	if progress == nil {
+		return false, false
+	}
+	total, quiet, step := ev.HangLimit, 2*time.Minute, 10*time.Second
+	if hangSeen.Load() {
+		total, quiet, step = watchdogLimit+20*time.Second, 15*time.Second, 5*time.Second
+	}
+	start := time.Now().Add(-watchdogLimit)
+	last, lastMove := progress(), time.Now()
+	for {
+		select {
+		case p := <-ch:
+			return finish(p)
+		case <-time.After(step):
+		}
+		if n := progress(); n != last {
+			last, lastMove = n, time.Now()
+		}
+		if time.Since(start) >= total && time.Since(lastMove) >= quiet {
+			hangSeen.Store(true)
+			return false, true
+		}
+		if time.Since(start) >= 3*ev.HangLimit {
+			return false, false // still making calls: the call budget decides
+		}
 	}
 }
 
